@@ -17,11 +17,11 @@ import (
 
 func init() { runners["C17"] = runC17 }
 
-type cscript struct{ Tag, DReq, Opt, Calls, DResp, Fail int64 }
+type cscript struct{ Tag, DReq, Opt, Calls, DResp, Fail, CC int64 }
 
 func (s cscript) coq() string {
-	return fmt.Sprintf("{| cs_tag := %d; cs_dreq := %s; cs_opt := %d; cs_calls := %d; cs_dresp := %s; cs_fail := %d |}",
-		s.Tag, hx.Z(s.DReq), s.Opt, s.Calls, hx.Z(s.DResp), s.Fail)
+	return fmt.Sprintf("{| cs_tag := %d; cs_dreq := %s; cs_opt := %d; cs_calls := %d; cs_dresp := %s; cs_fail := %d; cs_cc := %d |}",
+		s.Tag, hx.Z(s.DReq), s.Opt, s.Calls, hx.Z(s.DResp), s.Fail, s.CC)
 }
 
 // options are encoded as grpc.MaxCallRecvMsgSize(n)
@@ -57,6 +57,21 @@ func runC17(o *hx.Out, r *hx.Rand, thorough bool) {
 		}
 		return "true"
 	}
+	// what an interceptor hands on as the connection argument: its own (0), nil (1), some other connection (2)
+	otherConn, err := grpc.Dial("passthrough:///verif-other", grpc.WithTransportCredentials(insecure.NewCredentials()))
+	if err != nil {
+		panic(err)
+	}
+	defer otherConn.Close()
+	onward := func(s cscript, cc *grpc.ClientConn) *grpc.ClientConn {
+		switch s.CC {
+		case 1:
+			return nil
+		case 2:
+			return otherConn
+		}
+		return cc
+	}
 	var curDesc map[string]interface{}
 	mkUnary := func(s cscript) grpc.UnaryClientInterceptor {
 		return func(ctx context.Context, method string, req, reply interface{}, cc *grpc.ClientConn, invoker grpc.UnaryInvoker, opts ...grpc.CallOption) error {
@@ -77,9 +92,9 @@ func runC17(o *hx.Out, r *hx.Rand, thorough bool) {
 			if s.Opt != 0 {
 				opts2 = append(append([]grpc.CallOption{}, opts...), grpc.MaxCallRecvMsgSize(int(s.Opt)))
 			}
-			err := invoker(ctx, method, req2, reply, cc, opts2...)
+			err := invoker(ctx, method, req2, reply, onward(s, cc), opts2...)
 			if s.Calls == 2 {
-				err = invoker(ctx, method, req2, reply, cc, opts2...)
+				err = invoker(ctx, method, req2, reply, onward(s, cc), opts2...)
 			}
 			if s.Fail != 0 {
 				return status.Error(codes.Code(s.Fail), "scripted")
@@ -110,9 +125,9 @@ func runC17(o *hx.Out, r *hx.Rand, thorough bool) {
 			if s.Opt != 0 {
 				opts2 = append(append([]grpc.CallOption{}, opts...), grpc.MaxCallRecvMsgSize(int(s.Opt)))
 			}
-			st, err := streamer(ctx2, desc, cc, method, opts2...)
+			st, err := streamer(ctx2, desc, onward(s, cc), method, opts2...)
 			if s.Calls == 2 {
-				st, err = streamer(ctx2, desc, cc, method, opts2...)
+				st, err = streamer(ctx2, desc, onward(s, cc), method, opts2...)
 			}
 			if s.Fail != 0 {
 				return nil, status.Error(codes.Code(s.Fail), "scripted")
@@ -125,6 +140,9 @@ func runC17(o *hx.Out, r *hx.Rand, thorough bool) {
 	}
 	randScript := func(tag int64) cscript {
 		s := cscript{Tag: tag, Calls: 1}
+		if r.Chance(25) {
+			s.CC = int64(r.Range(1, 2))
+		}
 		if r.Chance(55) {
 			return s
 		}
@@ -185,7 +203,7 @@ func runC17(o *hx.Out, r *hx.Rand, thorough bool) {
 			}})
 			base = fakeChan{l, tag, ipc}
 		}
-		depth := r.Intn(5)
+		depth := r.Intn(7)
 		type layer struct{ u, s *cscript }
 		layers := make([]layer, depth) // outermost first
 		for i := range layers {
@@ -211,6 +229,10 @@ func runC17(o *hx.Out, r *hx.Rand, thorough bool) {
 				si = mkStream(*layers[i].s)
 			}
 			w := grpchan.InterceptClientConn(ch, ui, si)
+			// a sibling wrapper over the same channel, created afterwards and never called: it must
+			// not change what w does
+			sib := cscript{Tag: 99, Calls: 1, DReq: 500, DResp: 70000}
+			_ = grpchan.InterceptClientConn(ch, mkUnary(sib), mkStream(sib))
 			if ui == nil && si == nil {
 				if w != ch {
 					identOK = false
